@@ -423,6 +423,7 @@ class Model:
             if d.gst is not None and not region:
                 d.gst[c] = s.gst[c]
         d.taint |= s.taint
+        d.gexact = d.gexact and s.gexact     # inactive cells that the source's region operations did not reach
         d.exists = True
 
     def op_copy(self, src, dst, box):
@@ -546,6 +547,7 @@ class Model:
             if d.gst is not None and not region:
                 d.gst[c] = s.gst[c]
         d.taint |= s.taint
+        d.gexact = d.gexact and s.gexact     # inactive cells that the source's region operations did not reach
         d.exists = True
 
     def op_operate(self, dst, box, fn, src, a, b):
